@@ -92,6 +92,10 @@ def simpler_cases(case):
         c = copy.deepcopy(case)
         c["extra_cap"] = 0
         yield c
+    if case.get("err"):
+        c = copy.deepcopy(case)
+        c["err"] = 0
+        yield c
     for i, a in enumerate(script):
         if a in ("ConvMutPrev", "ConvReadPrev", "Abandon", "AbandonMutPrev"):
             c = copy.deepcopy(case)
